@@ -235,6 +235,7 @@ func runCRLHistory(h *Harness, cfg histCfg) {
 	nnodes := 1 + tp.Weighted(3, 1)
 	pre := Pick(tp, 0, 0, 20)
 	h.S.pPre = uint64(pre) * (1 << 32) / 1000
+	h.S.pDelayDen, h.S.delayFor = Pick(tp, 0, 0, 0, 8), 2*time.Second
 	faulty := cfg.faulty && tp.Chance(1, 2)
 	if faulty {
 		h.R.Config = "faulty"
